@@ -244,7 +244,9 @@ def PsipURI.long (u : PsipURI) : PField × Bool :=
   else if u.params.len > 0 then setFrom u u.params
   else if u.port.len > 0 then setFrom u u.port
   else if u.host.len > 0 then setFrom u u.host
-  else if u.pass.len > 0 then setFrom u u.pass
+  else if u.pass.len > 0 then
+    -- tel: the number (kept in User) comes after the password
+    if u.user.len > 0 && u.user.endT > u.pass.endT then setFrom u u.user else setFrom u u.pass
   else if u.user.len > 0 then setFrom u u.user
   else ({}, false)
 
@@ -270,7 +272,7 @@ def adjField (f : PField) (start offs : Nat) (last : Nat) : PField × Nat :=
   else (f, last)
 
 def ulenStep (ulen start : Nat) (f : PField) : Nat :=
-  if f.offs != 0 then (f.offs + f.len + 65536 - start) % 65536 else ulen
+  if f.offs != 0 && (f.offs + f.len + 65536 - start) % 65536 > ulen then (f.offs + f.len + 65536 - start) % 65536 else ulen
 
 /-- `AdjustOffs(newpos)`: (ok, u', panicked). -/
 def PsipURI.adjustOffs (u : PsipURI) (np : PField) : Bool × PsipURI × Bool :=
